@@ -63,6 +63,9 @@ class SpecEvalMixin:
             return TRUE
         if isinstance(v, (VList, VDeque)):
             return Gt(seq_len(self.seq_items(st, v)), I(0))
+        if isinstance(v, VSet):
+            so = elem_sort(v.elem)
+            return Not(Eq(self.set_content(st, v), T(f"((as const (Array {so} Bool)) false)", f"(Array {so} Bool)")))
         if isinstance(v, VSeq):
             return Gt(seq_len(v.t), I(0))
         if isinstance(v, VTuple):
@@ -301,6 +304,8 @@ class SpecEvalMixin:
             return seq_contains_elem(t, it.t)
         if isinstance(container, VTuple):
             return Or(*[self.values_equal(st, item, x) for x in container.items])
+        if type(container).__name__ == "VSetv":
+            return select(container.t, self.unwrap(item).t)
         if isinstance(container, VSet):
             a = select(self.heap_array(st, f"$set${elem_sort(container.elem)}", INT,
                                        f"(Array {elem_sort(container.elem)} Bool)"), container.t)
@@ -576,4 +581,6 @@ class SpecEvalMixin:
             if fn is not None:
                 return Or(has, fn(self, st, v, attr).t)
             return has
+        if isinstance(v, VAny) and "hasattr_opaque" in self.reg.specfns:
+            return self.reg.specfns["hasattr_opaque"](self, st, v, attr)
         raise Unsupported(f"hasattr on {v!r}")
